@@ -23,79 +23,119 @@ def _is_ib(sort):
 
 
 def abstract(t):
+    return _abs(t)[0]
+
+
+def _abs(t):
+    """-> (abstracted term | None, tuple of length-abstraction constants below t)"""
     key = t.get_id()
     hit = _cache.get(key)
     if hit is not None:
-        return hit[1]
-    r = _abstract(t)
-    _cache[key] = (t, r)        # keep t alive: z3 recycles AST ids of collected terms
-    return r
+        return hit[1], hit[2]
+    r, lens = _abstract(t)
+    _cache[key] = (t, r, lens)        # keep t alive: z3 recycles AST ids of collected terms
+    return r, lens
 
 
 def _fresh_for(t):
     name = f"abs!{t.get_id()}"
-    s = t.sort()
-    c = z3.Const(name, s)
+    c = z3.Const(name, t.sort())
     if z3.is_app(t) and t.decl().kind() == z3.Z3_OP_SEQ_LENGTH:
-        _len_terms[name] = c
-    return c
+        return c, (c,)
+    return c, ()
 
 
 def _abstract(t):
     if not _is_ib(t.sort()):
-        return None
-    if z3.is_quantifier(t) or z3.is_var(t):
-        return _fresh_for(t)
-    if not z3.is_app(t):
+        return None, ()
+    if z3.is_quantifier(t) or z3.is_var(t) or not z3.is_app(t):
         return _fresh_for(t)
     k = t.decl().kind()
     if k == z3.Z3_OP_UNINTERPRETED and t.num_args() == 0:
-        return t
+        return t, ()
     if k in _ARITH_KINDS:
         kids = []
+        lens = ()
         for c in t.children():
-            a = abstract(c)
+            a, l = _abs(c)
             if a is None:
                 return _fresh_for(t)       # e.g. equality between strings
             kids.append(a)
+            if l:
+                lens = lens + tuple(x for x in l if not any(x is y for y in lens))
         if not kids:
-            return t
+            return t, ()
         try:
-            return t.decl()(*kids)
+            return t.decl()(*kids), lens
         except z3.Z3Exception:
             return _fresh_for(t)
     return _fresh_for(t)
 
 
-_solver = None
+def _lens_of(t):
+    return _abs(t)[1]
 
 
-def entails(pc, cond, timeout_ms=300):
-    """True iff the arithmetic abstraction of pc entails cond (cond: z3 Bool)."""
-    global _solver
-    a_cond = abstract(cond)
-    if a_cond is None:
-        return False
-    if _solver is None:
-        _solver = z3.SolverFor('QF_LIA') if False else z3.Solver()
-    s = _solver
-    s.push()
-    try:
-        s.set('timeout', timeout_ms)
-        for p in pc:
+class _Inc:
+    """incremental solver following the DFS over path conditions (push/pop per pc entry)"""
+
+    def __init__(self):
+        self.s = z3.Solver()
+        self.s.set('timeout', 250)
+        self.stack = []         # pc terms currently asserted (kept alive)
+        self.checks = 0
+
+    def sync(self, pc):
+        k = 0
+        n = min(len(self.stack), len(pc))
+        while k < n and self.stack[k] is pc[k]:
+            k += 1
+        if k < n:
+            # identity differs: compare by AST equality
+            while k < n and self.stack[k].eq(pc[k]):
+                k += 1
+        for _ in range(len(self.stack) - k):
+            self.s.pop()
+        del self.stack[k:]
+        for p in pc[k:]:
+            self.s.push()
             a = abstract(p)
             if a is not None:
-                s.add(a)
-        for c in _len_terms.values():
-            s.add(c >= 0)
-        s.add(z3.Not(a_cond))
-        r = s.check()
-        return r == z3.unsat
-    except z3.Z3Exception:
-        return False
-    finally:
-        s.pop()
+                self.s.add(a)
+                for c in _lens_of(p):
+                    self.s.add(c >= 0)
+            self.stack.append(p)
+
+    def entails(self, pc, cond):
+        a_cond = abstract(cond)
+        if a_cond is None:
+            return False
+        try:
+            self.sync(pc)
+            self.s.push()
+            try:
+                self.s.add(z3.Not(a_cond))
+                for c in _lens_of(cond):
+                    self.s.add(c >= 0)
+                self.checks += 1
+                return self.s.check() == z3.unsat
+            finally:
+                self.s.pop()
+        except z3.Z3Exception:
+            self.__init__()
+            return False
 
 
-def infeasible(pc, timeout_ms=300):
+_inc = None
+
+
+def entails(pc, cond, timeout_ms=250):
+    """True iff the arithmetic abstraction of pc entails cond (cond: z3 Bool)."""
+    global _inc
+    if _inc is None:
+        _inc = _Inc()
+    return _inc.entails(pc, cond)
+
+
+def infeasible(pc, timeout_ms=250):
     return entails(pc, z3.BoolVal(False), timeout_ms)
